@@ -141,10 +141,17 @@ def zero(e):
     e = sp.sympify(e)
     if e == 0:
         return True, "syntactic"
-    r = sp.cancel(sp.together(e))
-    if r == 0:
-        return True, "cancel"
-    r = sp.simplify(r)
+    # the closed forms are rational functions of omega and the vertex frequencies: an exact evaluation at a generic
+    # rational point refutes an identity at once; otherwise the numerator decides
+    w = symalg.rational_witness(e)
+    if w is not None:
+        return False, core.norm(f"non-zero ({w[1]}) at {w[0]}", 160)
+    num = sp.expand(sp.numer(sp.together(e)))
+    if num == 0:
+        return True, "rational"
+    if not e.atoms(sp.Function) and num.is_polynomial(*num.free_symbols):
+        return False, core.norm(str(sp.factor_terms(num)), 160)
+    r = sp.simplify(sp.cancel(sp.together(e)))
     return (r == 0), ("simplify" if r == 0 else core.norm(str(r), 160))
 
 
@@ -532,10 +539,12 @@ def _abs_cond(e, st, rank):
     if op == "==":
         return a == b
     if isinstance(a, str) and isinstance(b, str):
-        if op == ">":
-            return rank[a] > rank[b]
-        if op == "<":
-            return rank[a] < rank[b]
+        # the ordering domain is the 24 strict orderings (assumption: pairwise distinct vertex frequencies), on which
+        # >= and > (<= and <) coincide for different vertices
+        if op in (">", ">="):
+            return rank[a] > rank[b] if a != b else op == ">="
+        if op in ("<", "<="):
+            return rank[a] < rank[b] if a != b else op == "<="
     raise AnalysisError(f"sort_omegas: unsupported comparison {cast.text(e)}")
 
 
